@@ -15,7 +15,7 @@ from pytenet.bond_ops import qr
 
 ID = 'C11'
 LEVEL = 'model_checking'
-RULE = ('full product of shapes x charge-vector pairs over a 3-letter alphabet x charge maps {id,neg,enc,big} x value kinds '
+RULE = ('full product of shapes x charge-vector pairs over a 3-letter alphabet x charge maps {id,neg,enc,big,huge(2**53+q)} x value kinds '
         '{complex,real,rankdef,zeroblock,zero}; non-trivial = at least one shared charge and a non-zero matrix')
 BUDGET = {'quick': 300, 'thorough': 3000}
 KINDS = ['complex', 'real', 'rankdef', 'zeroblock', 'zero']
@@ -57,9 +57,17 @@ def run_case(case, ctx):
     ctx.check(k >= 1, 'intermediate_dim_positive', f'k={k}')
     ctx.close(Q @ R, A0, 'product_equals_matrix')
     ctx.close(Q.conj().T @ Q, np.identity(k), 'Q_orthonormal_columns')
-    # block sparsity under intermediate charges (exact zeros required)
-    ctx.check(not np.any((q0[:, None] != qi[None, :]) & (Q != 0)), 'Q_block_sparse')
-    ctx.check(not np.any((qi[:, None] != q1[None, :]) & (R != 0)), 'R_block_sparse')
+    # block sparsity under intermediate charges (exact zeros required); charges compared as exact Python integers
+    # (a mixed int64/float64 NumPy comparison would round charges above 2**53)
+    e0 = np.array([int(x) for x in q0], dtype=object)
+    e1 = np.array([int(x) for x in q1], dtype=object)
+    try:
+        ei = np.array([int(x) if float(x) == int(x) else x for x in qi.tolist()], dtype=object)
+    except (TypeError, ValueError, OverflowError):
+        ctx.fail('intermediate_charges_are_integers', repr(qi))
+        return
+    ctx.check(not np.any((e0[:, None] != ei[None, :]) & (Q != 0)), 'Q_block_sparse')
+    ctx.check(not np.any((ei[:, None] != e1[None, :]) & (R != 0)), 'R_block_sparse')
     if not shared:
         ctx.check(k == 1, 'disjoint_intermediate_dim_one', f'k={k}')
         ctx.check(not np.any(R != 0), 'disjoint_R_zero')
@@ -71,8 +79,8 @@ def sig(case):
 
 def spaces(tier, seed):
     if tier == 'quick':
-        N, maps = 4, ['id', 'neg', 'enc']
+        N, maps = 4, ['id', 'neg', 'enc', 'huge']
     else:
-        N, maps = 5, ['id', 'neg', 'enc', 'big']
+        N, maps = 5, ['id', 'neg', 'enc', 'big', 'huge']
     return [Space('qr', core.chunked(_cases(N, maps), 3000), run_case=run_case, sig=sig,
                   bounds={'m,n<=': N, 'charge_alphabet': [0, 1, 2], 'charge_maps': maps, 'kinds': KINDS})]
